@@ -400,6 +400,18 @@ def _d7(chk, fb):
                 wb, tb = cfg.stmt_block(w), cfg.stmt_block(t)
                 if wb is None or tb is None:
                     continue
+                # a throw under 'it == table.end()' with it = table.find(K) repeats the precondition when K's existence was
+                # established by the *MustExist_(K) test that dominates the whole function body: it cannot fire
+                if gi is not None and "cond" in gi:
+                    import re as _re
+                    ct = render(f.nodes[gi["cond"]], local_inits(f))
+                    m_ = _re.match(r"^\((nodeStructure_|edgeStructure_)\.find\((\w+)\) == \1\.end\(\)\)$", ct)
+                    if m_:
+                        want = ("nodeMustExist_" if m_.group(1) == "nodeStructure_" else "edgeMustExist_")
+                        pre = [c for c in f.calls() if c["callee"]["name"] == want and f.args(c) and render(f.args(c)[0]) == m_.group(2) and cfg.dominates(cfg.stmt_block(c), tb)]
+                        erased = [c for c in f.calls() if c["callee"]["name"] == "erase" and "obj" in c and render(f.obj(c)) == m_.group(1) and e1.before_in_function(cfg, c, t)]
+                        if pre and not erased:
+                            continue
                 after = (wb == tb and e1.earlier_in_block(cfg, w, t)) or (wb != tb and e1.path_exists(cfg, wb, tb))
                 if after:
                     bad = (w, t)
@@ -547,6 +559,80 @@ def _d10(chk, fb):
     chk.floor("D10", "neighbour iterator constructors", n, 8)
 
 
+def _d11(chk, fb):
+    """snapshot freshness: a local list obtained from a query of the graph structure (neighbours, edges) and then consumed by a
+    loop must not have a write to that structure between the query and the start of its loop - the list then names relations
+    that no longer exist (the loop that consumes a snapshot may of course write: that is what snapshots are for)"""
+    eff = e1.Effects(fb)
+    n = 0
+    for f in sorted(_graph_fns(fb), key=lambda x: x.key):
+        if (f.cls or "") != G or f.body is None:
+            continue
+        cfg = f.cfg
+        for dn in f.all_nodes():
+            if dn["k"] != "DeclStmt":
+                continue
+            for d in dn["decls"]:
+                init = strip(d.get("init")) if d.get("init") is not None else None
+                if init is None or "vector" not in (d.get("ty") or "") or not is_call(init):
+                    continue
+                if not (init["callee"].get("inrepo") and init["callee"].get("const") and ("obj" not in init or strip(f.obj(init))["k"] == "CXXThisExpr")):
+                    continue
+                # consuming loops: range-for over the local, or a loop whose condition/initialiser names it
+                loops_ = []
+                for lp in f.all_nodes():
+                    if lp["k"] == "CXXForRangeStmt":
+                        ri = f.nodes.get(lp["rangeinit"]) if isinstance(lp.get("rangeinit"), int) else lp.get("rangeinit")
+                        if ri is not None and strip(ri)["k"] == "DeclRefExpr" and strip(ri)["decl"]["id"] == d["id"]:
+                            loops_.append(lp)
+                    elif lp["k"] in ("ForStmt", "WhileStmt") and lp.get("cond") is not None:
+                        hdr = [f.nodes.get(lp.get("init")), f.nodes.get(lp.get("cond"))]
+                        if any(h is not None and any(x["k"] == "DeclRefExpr" and x["decl"].get("id") == d["id"] for x in walk(h)) for h in hdr):
+                            loops_.append(lp)
+                if not loops_:
+                    continue
+                for lp in loops_:
+                    n += 1
+                    con = "snapshot:%s" % d["name"]
+                    # writes to the structures between the declaration and the loop: statements that are neither inside the loop
+                    # nor before the declaration
+                    stale = None
+                    db = cfg.stmt_block(dn)
+                    for b_ in cfg.blocks:
+                        for e_ in cfg.blocks[b_]["el"]:
+                            x = f.nodes.get(e_)
+                            if x is None or not is_call(x) or f.contains(lp, x) or x is init or f.contains(dn, x):
+                                continue
+                            roots = set(eff.call_effect(f, x))
+                            if x["callee"].get("inrepo") and ("obj" not in x or strip(f.obj(x))["k"] == "CXXThisExpr"):
+                                for t in fb.targets(x):
+                                    if t.body is not None:
+                                        roots |= {r for r in eff.summary(t, 3) if r[0] == "f"}
+                            if not any(r[0] == "f" and len(r) > 2 and r[2] in STRUCT for r in roots):
+                                continue
+                            xb = cfg.stmt_block(x)
+                            lb = cfg.stmt_block(f.nodes[lp["cond"]]) if lp.get("cond") is not None else next((bb for bb, blk in cfg.blocks.items() if blk.get("term") == lp["id"]), None)
+                            if xb is None or lb is None or db is None:
+                                continue
+                            after_decl = (xb == db and e1.earlier_in_block(cfg, dn, x)) or (xb != db and e1.path_exists(cfg, db, xb))
+                            before_loop = e1.path_exists(cfg, xb, lb) and not f.contains(lp, x)
+                            # exclude writes that can only happen after the loop has finished
+                            loop_first = e1.path_exists(cfg, lb, xb) and not e1.path_exists(cfg, xb, lb, avoid_blocks={db})
+                            if after_decl and before_loop and not loop_first:
+                                stale = x
+                                break
+                        if stale:
+                            break
+                    if stale is not None:
+                        chk.refuted("D11", f.key, con, f.loc(lp),
+                                    "'%s' is read from the structure at %s, the structure is then changed by %s (%s), and only afterwards is '%s' walked: it may name relations that were already removed, and acting on them again raises or "
+                                    "removes something else" % (d["name"], f.loc(dn), render(stale)[:40], f.loc(stale), d["name"]),
+                                    witness={"history": "a node with a relation to itself in a directed graph: the relation is in both snapshots"})
+                    else:
+                        chk.proved("D11", f.key, con, f.loc(lp), "nothing writes the structure between the query (%s) and the loop that consumes it" % f.loc(dn))
+    chk.floor("D11", "structure snapshots consumed by loops", n, 2)
+
+
 def run(chk, fb, tier):
     chk.rule("D1", "nodeStructure_[k] / edgeStructure_[k] read as a value is dominated by nodeMustExist_(k) / edgeMustExist_(k) or a checked find of k")
     chk.rule("D2", "link: helper(a,b) always and helper(b,a) under '!directed_'; unlink: the inverse helper with the same two call shapes")
@@ -568,4 +654,6 @@ def run(chk, fb, tier):
     _d9(chk, fb)
     chk.rule("D10", "all constructors of the outgoing (incoming) neighbour iterators walk the same relation map of the node, and the two directions different maps")
     _d10(chk, fb)
+    chk.rule("D11", "a list queried from the graph structure and consumed by a loop is not preceded, between the query and that loop, by a write to the structure")
+    _d11(chk, fb)
     chk.assume("unchecked map::find results on absent ids inside protected GlobalGraph members are undefined behaviour that the installed libstdc++ tolerates (an exception is still raised): not asserted")
